@@ -20,8 +20,9 @@ RULE = ('one evaluation = one seeded history dominated by operations that read o
         'expiry time, issued through 1-3 handles in simulated processes whose clocks are skewed; oracle: live <=> expire_time > '
         'reader\'s clock, expire() exact, lazy cull legality; non-trivial = at least one item expired during the run; distinct = '
         'SHA-256 of (configuration, program)')
+RULE += ' ' + "One seed in 101 lets a fresh interpreter (another operating-system process) store or touch the items that the check's process must then expire."
 ASSUMPTIONS = ['clock frozen within one operation; per-process skew is constant during a run']
-PROBES = ('cull_expired', 'page_boundary_crossed', 'expired_seen')
+PROBES = ('cull_expired', 'page_boundary_crossed', 'expired_seen', 'other_os_process')
 TECHNIQUE = 'deterministic simulation with a virtual clock (frozen ticks, jumps, per-process skew) + model-based checking of every lookup against the liveness rule'
 LEVEL_TEXT = ('seeded exploration of clock trajectories x ttl classes x populations under a simulated clock; each result is '
               'compared with the reference model whose only rule for visibility is expire_time > now. The property is about '
@@ -31,6 +32,12 @@ LEVEL_NOTE = 'trusted: reference model, SQLite, tmpfs; the skew is applied at th
 
 def gen_case(seed, tier):
     rng = random.Random('%s/c04' % seed)
+    if seed % 101 == 17:
+        # housekeeping in one operating-system process, writers in another (a fresh interpreter): items the other process
+        # stored with an expiry, or shortened with touch, are removed by this process's expire() / cull() once they are due
+        return {'seed': seed, 'cfg': {'kind': 'xproc', 'n': rng.choice((1, 3, 5)), 'ttl': rng.choice((5, 60)), 'mfs': rng.choice((8, 2 ** 15)),
+                                      'sweep': rng.choice(('expire', 'cull')), 'how': rng.choice(('set', 'set', 'touch')),
+                                      'first_sweep': rng.choice((True, True, False))}, 'prog': []}
     settings = seqcache.gen_settings(rng, 'c04')
     n_ops = rng.choice((20, 40, 80)) if tier == 'quick' else rng.choice((30, 80, 200))
     prog = seqcache.gen_prog(rng, n_ops, 'expiry', settings['disk_min_file_size'])
@@ -63,7 +70,54 @@ def gen_case(seed, tier):
                                   'epoch': rng.choice((1600000000.0, 1600000000.25, 5.0))}, 'prog': prog}
 
 
+def run_xproc(case):
+    from .. import xproc
+    from ..world import World
+    from ..seq import RawView
+    cfg = case['cfg']
+    violations = []
+    world = World(case['seed'], clock={'mode': 'frozen', 'epoch': 1600000000.0}, yield_clock=False)
+    sim = world.sim
+    try:
+        path = world.path('c')
+        cache = world.dc.Cache(path, disk_min_file_size=cfg['mfs'], cull_limit=0)
+        cache.set('old', 1, expire=5)
+        for i in range(cfg['n']):
+            cache.set('t%d' % i, 'kept', expire=10 ** 6)      # for the touch variant: items the other process shortens
+        sim.advance(10)
+        if cfg['first_sweep']:
+            first = getattr(cache, cfg['sweep'])()
+            if first != 1:
+                violations.append({'rule': 'C04/expired-not-removed', 'sig': 'first-sweep', 'detail': '%s() -> %r, one item was due' % (cfg['sweep'], first)})
+        if cfg['how'] == 'set':
+            ops = [{'op': 'set', 'k': 'w%d' % i, 'v': {'bytes': 40} if i % 2 else i, 'expire': cfg['ttl']} for i in range(cfg['n'])]
+        else:
+            ops = [{'op': 'touch', 'k': 't%d' % i, 'expire': cfg['ttl']} for i in range(cfg['n'])]
+        got = xproc.run_child(path, ops, clock=sim.now)
+        if got != [True] * cfg['n']:
+            violations.append({'rule': 'C04/other-process-write-failed', 'sig': cfg['how'], 'detail': str(got)})
+        sim.advance(cfg['ttl'] + 1)
+        due = cfg['n'] + (0 if cfg['first_sweep'] else 1)
+        removed = getattr(cache, cfg['sweep'])()
+        raw = RawView(path)
+        left = len(raw.rowids())
+        raw.close()
+        want_left = cfg['n'] if cfg['how'] == 'set' else 0
+        if (removed != due or left != want_left) and not violations:
+            violations.append({'rule': 'C04/expired-not-removed', 'sig': 'written-by-another-process',
+                               'detail': '%d items stored / shortened by another process are due; %s() -> %r, %d rows left (expected %d removed, %d left)'
+                                         % (cfg['n'], cfg['sweep'], removed, left, due, want_left)})
+        cache.close()
+    finally:
+        world.close()
+    digest = hashlib.sha256(json.dumps(case['cfg'], sort_keys=True).encode()).hexdigest()
+    return {'violations': violations, 'digest': digest, 'steps': 4, 'switches': 0, 'fired': {}, 'probes': {'other_os_process': 1},
+            'virtual_s': 0.0, 'nontrivial': True, 'outcome': {'ops': 4}}
+
+
 def run_case(case):
+    if case['cfg'].get('kind') == 'xproc':
+        return run_xproc(case)
     seen = {'n': 0}
 
     def on_step(cache, model, op, got, violations):
